@@ -15,7 +15,10 @@ Local Open Scope Z_scope.
 Record dataset := mkDs {
   ds_dims : list Z;          (* extents, slowest first; for a record variable the head is the record count *)
   ds_nt   : Z;               (* HDF number type, incl. the DFNT_NATIVE / DFNT_LITEND flag bits *)
-  ds_data : list Z           (* element bytes in the caller's (little-endian host) memory order, row major *)
+  ds_data : list Z;          (* element bytes in the caller's (little-endian host) memory order, row major *)
+  ds_scales : list (option (list Z));   (* per dimension: the scale values (bytes, type ds_nt) if one was set *)
+  ds_strs : option (list Z * list Z * list Z);   (* label, unit, format of the data *)
+  ds_range : option (list Z * list Z)   (* maximum, minimum (bytes, type ds_nt) *)
 }.
 
 Record image := mkIm {
@@ -98,6 +101,8 @@ Definition w_dfr8 := 6. Definition w_df24 := 7. Definition w_gr := 8. Definition
 Definition w_vgi := 11. Definition w_n := 12. Definition w_lut := 13. Definition w_nolut := 14.
 Definition w_dfan := 15. Definition w_an := 16. Definition w_fl := 17. Definition w_fd := 18. Definition w_ol := 19.
 Definition w_od := 20. Definition w_nostrip := 21. Definition w_nopal := 22.
+Definition w_dfsdmeta := 23. Definition w_sdmeta := 24. Definition w_scale := 25. Definition w_strs := 26.
+Definition w_range := 27. Definition w_none := 28.
 
 Definition line := list tok.
 
@@ -119,18 +124,52 @@ Definition same_order (_ : Z) (b : list Z) := b.
 Definition same_type (nt : Z) : Z :=
   if nt_native nt then (if (nt_base nt =? 3) || (nt_base nt =? 4) then nt_base nt else nt_base nt + 16384) else nt.
 
+(** descriptive metadata of a dataset as one interface shows it: the scale of every dimension, the data strings,
+    the range.  [has] says whether the description this interface reads can carry them at all: the multi-file SD
+    calls keep them in attributes and dimension variables, which the older NDG description does not hold, so the
+    single-file calls see the metadata of the datasets they wrote themselves only. *)
+Definition meta_lines (view : Z) (has : bool) (kd : Z * dataset) : list line :=
+  let (k, d) := kd in
+  map (fun js => [TS view; TI k; TS w_scale; TI (fst js)] ++
+                 match snd js with Some b => if has then [TH b] else [TS w_none] | None => [TS w_none] end)
+      (number 0 (ds_scales d)) ++
+  [[TS view; TI k; TS w_strs] ++
+   match ds_strs d with
+   | Some (l, u, f) => if has then [TH l; TH u; TH f] else [TH []; TH []; TH []]
+   | None => [TH []; TH []; TH []]
+   end] ++
+  [[TS view; TI k; TS w_range] ++
+   match ds_range d with
+   | Some (mx, mn) => if has then [TH mx; TH mn] else [TS w_none]
+   | None => [TS w_none]
+   end].
+
 (** every dataset, whoever wrote it, through: the single-file SDS calls, the multi-file SD calls, the
     netCDF-style calls, the Vgroup/Vdata records that describe SD objects, and the SD calls once the Vgroup
     description is gone (older NDG description only) *)
+(** In the SD data model a dimension scale is itself a (coordinate) variable, and every variable of an SD file has
+    an NDG: through the older description each scale set with SDsetdimscale appears as a one-dimensional dataset
+    of its own, right after the dataset it was set for. *)
+Definition scale_datasets (d : dataset) : list dataset :=
+  flat_map (fun js => match snd js with
+                      | Some b => [mkDs [nth (Z.to_nat (fst js)) (ds_dims d) 0] (ds_nt d) b [None] None None]
+                      | None => []
+                      end) (number 0 (ds_scales d)).
+Definition ndg_datasets (writer : Z) (l : list dataset) : list dataset :=
+  if writer =? 2 then flat_map (fun d => d :: scale_datasets d) l else l.
+
 Definition sds_views (writer : Z) (l : list dataset) : list line :=
   let nl := number 0 l in
+  let ndl := number 0 (ndg_datasets writer l) in
   let cnt (v : Z) := [[TS v; TS w_n; TI (zlen l)]] in
-  cnt w_dfsd ++ map (sds_line w_dfsd same_type same_order) nl ++
+  [[TS w_dfsd; TS w_n; TI (zlen ndl)]] ++ map (sds_line w_dfsd same_type same_order) ndl ++
+  flat_map (meta_lines w_dfsdmeta (writer =? 1)) ndl ++
   map (sds_line w_sd same_type same_order) nl ++ cnt w_sd ++
+  flat_map (meta_lines w_sdmeta (negb (writer =? 3))) nl ++
   map (sds_line w_nc nc_type_of same_order) nl ++ cnt w_nc ++
   (if writer =? 1 then [[TS w_vg; TS w_n; TI 0]; [TS w_sdn; TS w_nostrip; TI 0]]
    else map (sds_line w_vg nt_base file_order) nl ++ cnt w_vg ++
-        map (sds_line w_sdn same_type same_order) nl ++ cnt w_sdn).
+        map (sds_line w_sdn same_type same_order) ndl ++ [[TS w_sdn; TS w_n; TI (zlen ndl)]]).
 
 (* ---- raster images.  Writers: 1 = DFR8 (one component) / DF24 (three), 2 = GR ------------------------ *)
 Definition pal_tok (p : option (list Z)) : list tok :=
